@@ -431,6 +431,45 @@ def r3_mask_insertion(ctx, rule):
             ins = [c for c in calls_in(n) if isinstance(c.func, ast.Attribute) and c.func.attr == 'insert']
             if ins:
                 cands.append((n, ins))
+    # descending index loop: for i in range(len(x) - 1, -1, -1) / reversed(range(len(x))): inserting at i + 1 only moves elements that
+    # were already visited, so every original element is seen exactly once
+    for n in walk_local(fn):
+        if not (isinstance(n, ast.For) and isinstance(n.target, ast.Name)):
+            continue
+        it = n.iter
+        lst_ = None
+        if isinstance(it, ast.Call) and call_name(it) == 'range' and len(it.args) == 3 and const(it.args[2]) == -1 and const(it.args[1]) == -1:
+            l0 = lin(it.args[0])
+            if l0 is not None and len(l0.t) == 1 and l0.c == -1 and list(l0.t)[0].startswith('len('):
+                lst_ = list(l0.t)[0][4:-1]
+        elif isinstance(it, ast.Call) and call_name(it) == 'reversed' and it.args and isinstance(it.args[0], ast.Call) \
+                and call_name(it.args[0]) == 'range' and len(it.args[0].args) == 1 and U(it.args[0].args[0]).startswith('len('):
+            lst_ = U(it.args[0].args[0])[4:-1]
+        if lst_ is None:
+            continue
+        ins_ = [c for c in calls_in(n) if isinstance(c.func, ast.Attribute) and c.func.attr == 'insert' and U(c.func.value) == lst_]
+        if len(ins_) != 1:
+            continue
+        iv = n.target.id
+        mod_ = ctx.repo.modules[qual.partition('::')[0]]
+        local = {}
+        for s_ in walk_stmts(n.body):
+            if isinstance(s_, ast.Assign) and isinstance(s_.targets[0], ast.Name):
+                local[s_.targets[0].id] = s_.value
+        ins = ins_[0]
+        val_t = U(ins.args[1])
+        for k, v in local.items():
+            val_t = val_t.replace(k, U(v))
+        conds = [(U(tt), p) for tt, p in path_conditions(mod_, c08._stmt_of(mod_, ins), stop=n)]
+        facts = {'loop': U(n.iter), 'insert': U(ins), 'guard': conds, 'inserted': val_t}
+        okd = lin(ins.args[0]) == Lin({iv: 1}, 1) and val_t == "'C' + %s[%s][1:]" % (lst_, iv) \
+            and conds == [("%s[%s][0] == 'A'" % (lst_, iv), True)] \
+            and not any(isinstance(s_, (ast.Break, ast.Continue, ast.Return)) for s_ in walk_stmts(n.body))
+        if okd:
+            ctx.ok(rule, qual, "descending index loop: C<n> inserted at i+1 after every A<n>, every element visited", facts)
+        else:
+            ctx.bad(rule, qual, 'descending mask insertion %s' % facts, "C<n> (same n) must be inserted at i+1 after every A<n> and only there", facts, n)
+        return
     # contradiction form: a counted loop whose range is computed once while its body grows the list (seed C13-e)
     for n in walk_local(fn):
         if isinstance(n, ast.For) and isinstance(n.iter, ast.Call) and call_name(n.iter) == 'range':
